@@ -337,9 +337,11 @@ func (f *Frame) assumeTypeInvariants() {
 		}
 		f.hypMode = false
 		// one quantified fact per clause keeps the solver's trigger selection local to the clause
+		s.weakKey = k
 		for _, c := range clauses {
 			s.fact(fmt.Sprintf("(forall ((r Int)) (=> (and (< 0 r) (< r %s)) %s))", s.alloc0, c))
 		}
+		s.weakKey = ""
 	}
 }
 
